@@ -10,7 +10,7 @@ import (
 
 // opaque wraps a native Go object that interpreted code only handles by reference.
 type opaque struct {
-	kind string
+	kind   string
 	re     *regexp.Regexp
 	pat    *Term
 	pieces []rePiece
